@@ -15,6 +15,7 @@ Mutation descriptors are JSON-able: [op, path, arg]
   op 'ins'  : insert INSERTS[arg] into the container at path
   op 'key'  : rename the dict key that ends path to KEYS[arg]
 """
+import collections
 import copy
 import glob
 import hashlib
@@ -394,6 +395,158 @@ TEXTS = [
     ('wb_indent4', 'version: "2.0"\nname: wb\nworkflows:\n    wf:\n        tasks:\n            t:\n                action: std.noop\n    wf2:\n        tasks:\n            t:\n                action: std.echo output=2\n'),
     ('wb_multiline_string', 'version: "2.0"\nname: wb\nworkflows:\n  wf:\n    description: |\n      line one\n      wf2:\n      line three\n    tasks:\n      t:\n        action: std.noop\n  wf2:\n    tasks:\n      t:\n        action: std.echo output=2\n'),
 ]
+
+
+# ------------------------------------------------------------------ presentation
+# Text-level variants of workbooks: the same document (or the same document
+# up to the content of its free-text strings) written differently.  The
+# workbook service cuts the text of every member out of the workbook text
+# line by line, so comments, blank lines and block scalars at every position
+# matter for "every workflow extracted from a workbook is the workflow
+# written in the workbook".
+PRES_BASES = [
+    ('pwb', """\
+version: "2.0"
+name: pwb
+description: presentation base
+actions:
+  act1:
+    description: |
+      first
+      second
+    base: std.echo
+    base-input:
+      output: |
+        out1
+        out2
+  act2:
+    base: std.noop
+workflows:
+  wf1:
+    description: >
+      folded one
+      folded two
+    input:
+    - v: |
+        in1
+        in2
+    tasks:
+      t1:
+        action: std.echo
+        input:
+          output: |
+            body1
+            body2
+        on-success:
+        - t2
+      t2:
+        action: std.noop
+  wf2:
+    tasks:
+      t:
+        action: std.echo output=2
+"""),
+    ('pwb4', """\
+version: "2.0"
+name: pwb4
+workflows:
+    wf1:
+        description: |
+            first
+            second
+        tasks:
+            t1:
+                action: std.noop
+    wf2:
+        tasks:
+            t:
+                action: std.echo output=2
+actions:
+    act1:
+        base: std.echo
+        base-input:
+            output: |
+                out1
+                out2
+"""),
+]
+PRES_COMMENT_INDENTS = (0, 1, 2, 4, 6, 8, 10, 12)
+PRES_BLOCK_LINES = ['# x', '#', '#!/bin/sh', 'wf2:', 'act1:', 'workflows:',
+                    '- x', 'k: v', '  deeper', '"q', '---']
+
+
+def _block_content_lines(lines):
+    """Indexes of the lines that are content of a block scalar."""
+    out, i = set(), 0
+    while i < len(lines):
+        ln = lines[i]
+        st = ln.rstrip()
+        if st.endswith(('|', '>')) and (st.endswith((': |', ': >'))):
+            ind = len(ln) - len(ln.lstrip())
+            j = i + 1
+            while j < len(lines) and (
+                    not lines[j].strip() or
+                    len(lines[j]) - len(lines[j].lstrip()) > ind):
+                out.add(j)
+                j += 1
+            i = j
+        else:
+            i += 1
+    return out
+
+
+def presentations(base_text):
+    """name -> text: every single line-level presentation edit."""
+    lines = base_text.split('\n')
+    if lines and lines[-1] == '':
+        lines.pop()
+    out = collections.OrderedDict()
+
+    def emit(name, ls):
+        out[name] = '\n'.join(ls) + '\n'
+    for i in range(len(lines) + 1):
+        for ind in PRES_COMMENT_INDENTS:
+            emit('comment@%d/%d' % (i, ind),
+                 lines[:i] + [' ' * ind + '# c'] + lines[i:])
+        emit('blank@%d' % i, lines[:i] + [''] + lines[i:])
+        emit('spaces@%d' % i, lines[:i] + ['   '] + lines[i:])
+    block = _block_content_lines(lines)
+    for i in range(len(lines)):
+        emit('trail@%d' % i, lines[:i] + [lines[i] + '  '] + lines[i + 1:])
+        if i in block and lines[i].strip():
+            ind = len(lines[i]) - len(lines[i].lstrip())
+            for k, c in enumerate(PRES_BLOCK_LINES):
+                emit('block@%d/%d' % (i, k),
+                     lines[:i] + [' ' * ind + c] + lines[i + 1:])
+    emit('crlf', [ln + '\r' for ln in lines])
+    emit('docstart', ['---'] + lines)
+    emit('docend', lines + ['...'])
+    return out
+
+
+def _same_shape(a, b):
+    """Same structure; string leaves may differ in content."""
+    if isinstance(a, dict) and isinstance(b, dict):
+        return list(a) == list(b) and all(_same_shape(a[k], b[k]) for k in a)
+    if isinstance(a, list) and isinstance(b, list):
+        return len(a) == len(b) and all(_same_shape(x, y)
+                                        for x, y in zip(a, b))
+    if isinstance(a, str) and isinstance(b, str):
+        return True
+    return type(a) is type(b) and a == b
+
+
+def presentation_case(base_name, variant):
+    """-> (text, expect): expect is 'accept' when an independent loader
+    reads the variant as the base document up to the content of its
+    strings, else None (no expectation: only totality / stability apply)."""
+    base = dict(PRES_BASES)[base_name]
+    text = presentations(base)[variant]
+    try:
+        ok = _same_shape(yaml.safe_load(base), yaml.safe_load(text))
+    except yaml.YAMLError:
+        ok = False
+    return text, ('accept' if ok else None)
 
 
 # ------------------------------------------------------------------ seeds
